@@ -311,6 +311,7 @@ def search(b0: bool, b1: bool, b2: bool, b3: bool, b4: bool, b5: bool, b6: bool,
         return out
     try:
         m = Message(MessageHeader(1, 0, 0x80, 0xabcdef, 1, 2, 3), [objs[n] for n in shape["top"]])
+        r0 = ids(m.find_avps(*path[:-1])) if plen > 1 else []     # the prefix first: a cached prefix must not corrupt its extensions
         r1 = ids(m.find_avps(*path))
         r2 = ids(m.find_avps(*path2))          # a second, different path on the same message: the cache must not leak
         r3 = ids(m.find_avps(*path))
@@ -320,7 +321,7 @@ def search(b0: bool, b1: bool, b2: bool, b3: bool, b4: bool, b5: bool, b6: bool,
     e1 = _ref_find(shape, shape["top"], path, vend)
     e2 = _ref_find(shape, shape["top"], path2, vend)
     e4 = _ref_find(shape, shape["top"], path[:-1], vend) if plen > 1 else []
-    return hx.check(inputs, (r1, r2, r3, r4), (e1, e2, e1, e4), "find_avps != reference tree walk (wire order, exact path, no cache leak)")
+    return hx.check(inputs, (r0, r1, r2, r3, r4), (e4, e1, e2, e1, e4), "find_avps != reference tree walk (wire order, exact path, no cache leak between a path, its prefix and its siblings)")
 
 
 def specs(tier, seed, carve):
@@ -361,5 +362,5 @@ def specs(tier, seed, carve):
             for fg in (0, 1):
                 out.append(dict(id="search/%s/plen%d/final%s" % (shape, plen, "G" if fg else "L"), fn="search", params={"shape": shape, "plen": plen, "final_grouped": fg},
                                 timeout=300 if q else 900,
-                                bound="tree shape %s (7 nodes, 3 grouped, nesting 3), every vendor assignment (same code under two vendors), every path of length %d ending in a %s identity, then the vendor-flipped path, the first path again and its prefix" % (shape, plen, "grouped" if fg else "leaf")))
+                                bound="tree shape %s (7 nodes, 3 grouped, nesting 3), every vendor assignment (same code under two vendors), every path of length %d ending in a %s identity, preceded by its prefix, followed by the vendor-flipped path, the first path again and the prefix again" % (shape, plen, "grouped" if fg else "leaf")))
     return out
